@@ -286,7 +286,7 @@ func (r *renderer) annotationForm(n *Node, level int, force int) {
 	if r.st.Gaps {
 		// blanks between the annotation marker and what follows: none, a tab, several
 		r.ngap++
-		gap = []string{"\t", "", "  ", " \t "}[r.ngap%4]
+		gap = []string{"\t", "", "  ", " \t "}[(r.ngap+r.sb.Len())%4]
 	}
 	if ml == 0 {
 		r.sb.WriteString("//" + gap)
